@@ -222,7 +222,11 @@ func vBuildDoc(kind string, depth int, tag string, o vDocOpts) vJ {
 		return vBuildResponses(depth, tag, o)
 	}
 	doc := vJObj()
-	for _, kw := range vKindVocab(kind, tag) {
+	kws := vKindVocab(kind, tag)
+	if tag == "d" {
+		vTopVocab, vTopNames = kws, nil
+	}
+	for _, kw := range kws {
 		if depth == 0 && !kw.Req {
 			continue
 		}
@@ -254,7 +258,19 @@ func vBuildDoc(kind string, depth int, tag string, o vDocOpts) vJ {
 	if depth > 0 && vExtensible[kind] {
 		for i := 0; i < o.exts; i++ {
 			name := "x-" + vSymName(tag+".ext", o.nameLen) + string(rune('0'+i)) // the meta-schemas admit ^x- only (lower case)
+			if tag == "d" {
+				vTopNames = append(vTopNames, name)
+			}
 			vJAdd(doc, vNondetBool(tag+".ext.present"), name, vAnyVal(tag+".extval", 1))
+			if i == 0 && vParam("case_twin", 0) == 1 {
+				// a second extension whose name differs from the first by letter case only
+				twin := "x-" + vSwapCase(name[2:])
+				vAssume(twin != name)
+				if tag == "d" {
+					vTopNames = append(vTopNames, twin)
+				}
+				vJAdd(doc, vNondetBool(tag+".twin.present"), twin, vJStr(vNondetOStr(tag+".twinval")))
+			}
 		}
 	}
 	if depth > 0 && kind == "schema" {
@@ -262,6 +278,9 @@ func vBuildDoc(kind string, depth int, tag string, o vDocOpts) vJ {
 			// an unknown keyword: not an extension, not a keyword (names end in a digit, no keyword does)
 			name := vSymName(tag+".extra", o.nameLen) + string(rune('0'+i))
 			vAssume(!(name[0] == 'x' || name[0] == 'X') || name[1] != '-')
+			if tag == "d" {
+				vTopNames = append(vTopNames, name)
+			}
 			vJAdd(doc, vNondetBool(tag+".extra.present"), name, vAnyVal(tag+".extraval", 1))
 		}
 	}
@@ -445,6 +464,10 @@ func vVar(n int, tag string) int {
 	return 0
 }
 
+// vocabulary and symbolic member names of the last top-level document built (for pointer checks)
+var vTopVocab []vKW
+var vTopNames []string
+
 // arbitrary-JSON mode
 var vWrongWhich, vWrongKind, vWrongCtr int
 var vCaseFolded bool
@@ -456,6 +479,18 @@ func vWrongInit(members int) {
 	if vWrongWhich > 0 {
 		vWrongKind = vChoose(8, "wrong.kind")
 	}
+}
+
+func vSwapCase(s string) string {
+	b := []byte(s)
+	for i := range b {
+		if b[i] >= 'a' && b[i] <= 'z' {
+			b[i] -= 32
+		} else if b[i] >= 'A' && b[i] <= 'Z' {
+			b[i] += 32
+		}
+	}
+	return string(b)
 }
 
 func vUpperFirst(s string) string {
